@@ -87,6 +87,11 @@ func registerHandlebarsHelpers() {
 				continue
 			}
 
+			if param.PassedIn == definitions.PassedInBody {
+				// Every engine binds and validates the body into the conversion error, whatever the body's type is
+				return options.Fn()
+			}
+
 			_, name := splitSliceBracket(param.TypeMeta.Name)
 			if name != "string" && param.TypeMeta.PkgPath != "" && param.TypeMeta.SymbolKind != common.SymKindEnum && param.TypeMeta.SymbolKind != common.SymKindAlias {
 				// Currently, only 'string' parameters don't undergo any validation
